@@ -1536,6 +1536,12 @@ func (v *FV) copyOp(fr *Frame, st *State, in ssa.Value, cc *ssa.CallCommon, pos 
 		v.emit(fmt.Sprintf("(assert (forall ((i %s)) (! (=> (and (%s %s i) (%s i %s)) (= (select %s %s) %s)) :pattern ((select %s %s)))))",
 			v.idx(), le, v.idxLit(0), lt, n, contents, v.iadd(doff, "i"), v.sliceElemAt(pre, arr, es, s.T, "i"), contents, v.iadd(doff, "i")))
 	}
+	if s.Sort == "Slice" {
+		// the same fact keyed by the absolute index (a pattern without arithmetic: instantiates from any read of
+		// the destination)
+		v.emit(fmt.Sprintf("(assert (forall ((j %s)) (! (=> (and (%s %s j) (%s j %s)) (= (select %s j) %s)) :pattern ((select %s j)))))",
+			v.idx(), le, doff, lt, v.iadd(doff, n), contents, v.sliceElemAt(pre, arr, es, s.T, v.isub("j", doff)), contents))
+	}
 	v.wr(st.snap, arr, v.arrOf(d.T), contents)
 	fr.vals[in] = TV{T: n, Ty: in.Type(), Sort: v.idx()}
 }
